@@ -75,7 +75,7 @@ ODD_TEXTS = [b"caf\xe9", b"\xef\xbb\xbfbom", b"\xff\xfea\x00b\x00", b"\xfe\xff\x
 STATUS = [200, 201, 204, 301, 302, 304, 400, 404, 500, 503, 100, 599, 999, 0]
 METHODS = [(30, "GET"), (25, "POST"), (9, "PUT"), (9, "PATCH"), (5, "DELETE"), (5, "HEAD"), (4, "OPTIONS")]
 ODD_METHODS = [(3, "CONNECT"), (2, "post"), (1, "QUERY"), (1, "OPTIONS*")]
-VERSIONS = [(55, "HTTP/1.1"), (20, "HTTP/2.0"), (20, "HTTP/3"), (3, "HTTP/1.0"), (2, "HTTP/2")]
+VERSIONS = [(61, "HTTP/1.1"), (14, "HTTP/2.0"), (20, "HTTP/3"), (3, "HTTP/1.0"), (2, "HTTP/2")]
 ODD_VERSIONS = [(1, "http/2.0"), (1, "HTTP/0.9"), (1, ""), (1, "HTTP/2"), (1, "HTTP/1.0")]
 
 
@@ -128,7 +128,7 @@ def _gen_headers(rng, plain, body, mutated, is_resp):
         if mutated and rng.chance(0.08):
             hs.append((b"content-type", rng.choice(cts)))
     raw = body
-    if body is not None and rng.chance((0.20 if is_resp else 0.04) + (0.15 if mutated else 0)):
+    if body is not None and rng.chance((0.12 if is_resp else 0.03) + (0.10 if mutated else 0)):
         ce = rng.weighted([(30, "gzip"), (12, "deflate"), (10, "br"), (10, "zstd"), (8, "identity")] +
                           ([(10, "foo"), (4, "GZIP"), (3, "gzip, br"), (3, ""), (2, "utf8"), (2, "none"), (10, "corrupt")] if mutated else []))
         if ce == "corrupt":
@@ -138,18 +138,18 @@ def _gen_headers(rng, plain, body, mutated, is_resp):
             raw = _compress(ce.lower(), body)
     if raw is not None:
         r = rng.random()
-        if r < 0.78:
+        if r < 0.84:
             hs.append((rng.choice([b"Content-Length", b"content-length"]), str(len(raw)).encode()))
-        elif r < 0.86:
+        elif r < 0.92:
             hs.append((b"Transfer-Encoding", b"chunked"))
-        elif mutated and r < 0.93:
-            hs.append((b"Content-Length", rng.choice([b"0", b"5", b"007", str(len(raw) + 1).encode(), b"x"])))
         elif mutated and r < 0.96:
+            hs.append((b"Content-Length", rng.choice([b"0", b"5", b"007", str(len(raw) + 1).encode(), b"x"])))
+        elif mutated and r < 0.98:
             hs.append((b"Content-Length", str(len(raw)).encode()))
             hs.append((b"content-length", str(len(raw)).encode()))
-    if mutated and rng.chance(0.3):
+    if mutated and rng.chance(0.10):
         hs.append(rng.choice(BAD_H))
-    if mutated and rng.chance(0.15):
+    if mutated and rng.chance(0.06):
         hs.append((rng.bytes(rng.randint(1, 6)), rng.bytes(rng.randint(0, 8))))
     if len(hs) > 1 and rng.chance(0.3):
         rng.shuffle(hs)
@@ -353,6 +353,12 @@ def _prop_fields(fl):
         d["resp"] = {"status": fl.response.status_code, "ver": fl.response.http_version, "h": _hl(fl.response.headers),
                      "body": _oh(fl.response.get_content(strict=False)), "sniffed": _sniffed(fl.response)}
     d["rsniffed"] = _sniffed(fl.request)
+    try:
+        urlmod.parse(fl.request.pretty_url)
+        d["url_rejected"] = False
+    except ValueError:
+        d["url_rejected"] = True
+    d["codec_charset"] = any(_codec_charset(m) for m in (fl.request, fl.response) if m is not None)
     return d
 
 
@@ -361,6 +367,18 @@ def _sniffed(m):
     ct = m.headers.get("content-type", "")
     c = m.get_content(strict=False)
     return c is not None and hdrmod.infer_content_encoding(ct, c) != hdrmod.infer_content_encoding(ct)
+
+
+def _codec_charset(m):
+    import codecs
+    p = hdrmod.parse_content_type(m.headers.get("content-type", ""))
+    cs = p[2].get("charset") if p else None
+    if not cs:
+        return False
+    try:
+        return not codecs.lookup(cs)._is_text_encoding
+    except (LookupError, ValueError, TypeError):
+        return False
 
 
 def _jh(lst):
@@ -396,7 +414,9 @@ def run_impl(case):
             rq, rs = e["request"], e["response"]
             ent = {"method": hx(_se(rq["method"])), "url": _cps(rq["url"]), "rver": hx(_se(rq["httpVersion"])), "rh": _jh(rq["headers"]),
                    "post": None, "status": rs["status"], "sver": hx(_se(rs["httpVersion"])), "sh": _jh(rs["headers"]),
-                   "ctext": None, "b64": rs["content"].get("encoding") == "base64"}
+                   "ctext": None, "enc": None, "b64": rs["content"].get("encoding") == "base64"}
+            if rs["content"].get("encoding") is not None:
+                ent["enc"] = hx(_se(rs["content"]["encoding"]))
             if "postData" in rq:
                 t = rq["postData"]["text"]
                 ent["post"] = {"text": None if t is None else _cps(t)}
@@ -580,7 +600,7 @@ def coq_case(case, obs):
             ("(Some (@None str))" if e["post"]["text"] is None else f"(Some (Some {_cstr(e['post']['text'])}))")
         ctext = "(@None str)" if e["ctext"] is None else f"(Some {_cstr(e['ctext'])})"
         ents.append(f"(mkEntry {cbytes(unhx(e['method']))} {_cstr(e['url'])} {cbytes(unhx(e['rver']))} {_cfields(e['rh'])} {post} "
-                    f"{cN(e['status'])} {cbytes(unhx(e['sver']))} {_cfields(e['sh'])} {ctext} {cbool(e['b64'])})")
+                    f"{cN(e['status'])} {cbytes(unhx(e['sver']))} {_cfields(e['sh'])} {ctext} {_cob(e['enc'])})")
     imps = []
     for i in obs["imp"]:
         imps.append(f"(mkIflow {cbytes(unhx(i['method']))} {_cstr(i['url'])} {cbytes(unhx(i['ver']))} {_cfields(i['rh'])} {_cob(i['rb'])} "
@@ -598,6 +618,30 @@ def _valid_utf8(b: bytes) -> bool:
         return True
     except UnicodeDecodeError:
         return False
+
+
+def _ref_normalise_url(u: str) -> str:
+    """reference description of what re-parsing does to a non-canonical URL: host lower-cased and IDNA-decoded, an empty
+    query dropped, an empty path replaced by a slash"""
+    scheme, sep, rest = u.partition("://")
+    cut = len(rest)
+    for ch in "/?#":
+        k = rest.find(ch)
+        if k != -1:
+            cut = min(cut, k)
+    auth, tail = rest[:cut], rest[cut:]
+    host, colon, port = auth.partition(":") if not auth.startswith("[") else (auth, "", "")
+    host = host.lower()
+    try:
+        host = host.encode("ascii").decode("idna")
+    except ValueError:
+        pass
+    if not tail.startswith("/"):
+        tail = "/" + tail
+    path, h, frag = tail.partition("#")
+    if path.endswith("?"):
+        path = path[:-1]
+    return scheme + sep + host + colon + port + path + h + frag
 
 
 def _lower(h):
@@ -632,7 +676,11 @@ def oracle(case, obs):
         if not any(x["key"] == key for x in v):
             v.append({"key": key, "what": what})
     if obs["export_error"] is not None:
-        add("export-raises", f"export_har raised {obs['export_error']}")
+        if any(o is not None and o["codec_charset"] for o in obs["orig"]):
+            add("non-text-charset-export-raises", f"export_har raised {obs['export_error']}: a Content-Type charset names a Python codec "
+                                                  "that is not a text encoding (hex, rot13, base64, ...)")
+        else:
+            add("unexpected-export-raises", f"export_har raised {obs['export_error']}")
         return v
     origs = [(f, o) for f, o in zip(case["flows"], obs["orig"]) if o is not None]
     imps = obs["imp_prop"]
@@ -649,14 +697,16 @@ def oracle(case, obs):
             what = f"FlowReader raised FlowReadException ({obs['imp_exc']}) at entry {idx}; "
             if not obs["hdr_se"] and any(not _valid_utf8(k) or not _valid_utf8(x) for k, x in rh + sh):
                 add("non-utf8-header-import-fails", what + "a header name/value is not valid UTF-8")
-            elif any(c > 127 for c in unhx(f["path"])) or any(c > 127 for c in o["url"]):
-                add("non-ascii-url-import-fails", what + "the URL contains a non-ASCII character")
+            elif o["url_rejected"]:
+                add("url-rejected-import-fails", what + f"Request.make rejects the exported URL {''.join(map(chr, o['url']))!r}")
             elif f["method"] in POSTLIKE and f["rb"] is None:
                 add("missing-request-body-import-fails", what + f"{f['method']} request without captured body exports postData.text = null")
             elif any(k.lower() == b"content-encoding" and x.lower() not in KNOWN_CE for k, x in sh):
                 add("unknown-content-encoding-import-fails", what + "the response has a Content-Encoding mitmproxy cannot encode")
             elif any(k.lower() == b"content-encoding" and x.lower() not in KNOWN_CE for k, x in rh):
                 add("unknown-request-content-encoding-import-fails", what + "the request has a Content-Encoding mitmproxy cannot encode")
+            elif o["codec_charset"]:
+                add("non-text-charset-import-fails", what + "a Content-Type charset names a Python codec that is not a text encoding")
             else:
                 add("unexpected-import-failure", what + json.dumps(f)[:300])
             break
@@ -668,8 +718,10 @@ def oracle(case, obs):
             ou, iu = "".join(map(chr, o["url"])), "".join(map(chr, i["url"]))
             if f["method"] == "CONNECT":
                 add("connect-url-changed", tag + f"url {ou!r} -> {iu!r}")
+            elif _ref_normalise_url(ou) == iu:
+                add("url-normalised-by-importer", tag + f"url {ou!r} -> {iu!r}")
             else:
-                add("url-changed", tag + f"url {ou!r} -> {iu!r}")
+                add("unexpected-url-changed", tag + f"url {ou!r} -> {iu!r}")
         if i["ver"] != o["ver"]:
             if o["ver"] == "HTTP/2.0":
                 add("http2-imports-as-http11", tag + f"request version HTTP/2.0 -> {i['ver']}")
